@@ -76,7 +76,7 @@ def run(ctx):
     cases, meta = [], []
     for case in corpus_cases():
         run_one(ctx, case, cases, meta, 'corpus')
-    for _ in range(2500 if ctx.tier == 'quick' else 40000):
+    for _ in range(2500 if ctx.tier == 'quick' else 15000):
         spec = G.gen_spec(rng)
         n = len(spec['dcs'])
         hist = G.gen_history(rng, spec, rng.randint(0, 5))
